@@ -52,7 +52,8 @@ func c16bases(thorough bool) []c16base {
 		{src: "func odd(n int) bool {\n\tif n == 0 {\n\t\treturn false\n\t}\n\treturn even(n - 1)\n}\n"},
 		{src: "func scale(x int) int {\n\treturn x * Big\n}\n"},
 		{src: "func count() int {\n\tcalls++\n\treturn calls\n}\n"},
-		{src: "func Main() {\n\tfmt.Println(even(4), odd(4), scale(2), first, second, calls, Small, Big)\n}\n", fmt: true},
+		{src: "func apply(scale int, count int) int {\n\tscale += count\n\todd := scale * 2\n\treturn odd + count\n}\n"},
+		{src: "func Main() {\n\tfmt.Println(even(4), odd(4), scale(2), first, second, calls, Small, Big, apply(2, 3))\n}\n", fmt: true},
 		{src: "const (\n\tSmall = iota + 1\n\tBig\n)\n", ordered: true},
 		{src: "var calls int\n", ordered: true},
 		{src: "var first = count()\n", ordered: true},
@@ -74,7 +75,7 @@ func c16bases(thorough bool) []c16base {
 	if !thorough {
 		// quick: 5 hoistable + 3..4 ordered items per package
 		b1.items = append(append([]c16item{}, b1.items[0], b1.items[1], b1.items[2], b1.items[3], c16item{src: "func mk(n int) *A {\n\treturn &A{b: &B{v: n * 2}, n: n}\n}\n"}, c16item{src: "func Main() {\n\tfmt.Println(s0, a0.b.Get(), K, a0.Sum())\n}\n", fmt: true}), b1.items[7], b1.items[8], b1.items[9], c16item{src: "func init() {\n\ts0 += 100\n}\n", ordered: true})
-		b2.items = append(append([]c16item{}, b2.items[0], b2.items[1], b2.items[2], b2.items[3], b2.items[4]), b2.items[5:]...)
+		// (all items of the functions package are kept in quick: a parameter named like another top-level function needs them)
 		b3.items = append(append([]c16item{}, b3.items[1], b3.items[3], b3.items[0], b3.items[5], c16item{src: "func Main() {\n\tfmt.Println(total(all), len(all), sum)\n}\n", fmt: true}), c16item{src: "var all = []Shape{&Sq{s: 2}, &Sq{s: 3}}\n", ordered: true}, b3.items[8], c16item{src: "func init() {\n\tall = append(all, &Sq{s: 1})\n}\n", ordered: true})
 	}
 	return []c16base{b1, b2, b3}
